@@ -134,6 +134,11 @@ def cases(tier):
     for pad in (1, 2):
         for t in (0.0, 0.5):
             yield Case("stack:corr:pad=%d:thr=%g" % (pad, t), {"kind": "corrstack", "pad": pad, "thr": t})
+    # frame sizes with large prime factors (13, 17, 19, 23, 29, 31, 41, 43; 26 = 2 x 13, 34 = 2 x 17): FFT lengths that
+    # an implementation may pad or treat specially
+    for (ny, nx) in ((13, 13), (17, 13), (19, 19), (23, 29), (26, 34), (31, 31), (41, 43)):
+        for pad in (1, 2, 3):
+            yield Case("corrsize:ny=%d:nx=%d:pad=%d" % (ny, nx, pad), {"kind": "corrsize", "ny": ny, "nx": nx, "pad": pad})
     for (ny, nx) in _corr_shapes(tier):
         for pad in _pads(tier):
             yield Case("corr:ny=%d:nx=%d:pad=%d" % (ny, nx, pad), {"kind": "corr", "ny": ny, "nx": nx, "pad": pad})
@@ -160,6 +165,8 @@ def evaluate(p):
             return _corrstack(p)
         if k == "corr":
             return _corr(p)
+        if k == "corrsize":
+            return _corrsize(p)
         return _quad()
 
 
@@ -483,12 +490,41 @@ def _corrstack(p):
                 one = _xy(C.correlation_centroid(im.copy(), ref.copy(), threshold=t, padding=pad))
                 worst = max(worst, _err(got[:, k], one.reshape(-1)))
                 n += 1
+            # the same frames on different floors (a drifting sky / bias level: every frame has its own minimum)
+            st2 = st + (numpy.arange(len(ims)) % 4)[:, None, None] * 0.75 + 0.5
+            got2 = _xy(C.correlation_centroid(st2.copy(), ref.copy(), threshold=t, padding=pad))
+            o.stat("lib_calls", 1 + len(ims))
+            for k in range(len(ims)):
+                one = _xy(C.correlation_centroid(st2[k].copy(), ref.copy(), threshold=t, padding=pad))
+                worst = max(worst, _err(got2[:, k], one.reshape(-1)) if got2.shape == (2, len(ims)) else float("inf"))
+                n += 1
     o.close("stack_equals_frames", worst, TOL_FFT)
     o.clauses["stack_equals_frames"][0] = n
     return o
 
 
 # ----------------------------------------------------------------------------- correlation centroid
+
+def _corrsize(p):
+    """array centre and displacement clauses on frames whose sizes have large prime factors"""
+    C = _lib()
+    o = Out()
+    ny, nx, pad = p["ny"], p["nx"], p["pad"]
+    cy, cx = cog.array_centres(ny), cog.array_centres(nx)
+    spot = numpy.array([[1., 2., 1.], [2., 6., 3.], [1., 3., 2.]])
+    y0, x0 = (ny - 3) // 2, (nx - 3) // 2
+    ref = cog.embed(spot, (ny, nx), y0, x0)
+    for t in (0.0, 0.3):
+        c0 = _xy(C.correlation_centroid(ref.copy(), ref.copy(), threshold=t, padding=pad)).reshape(-1)
+        o.close("corr_array_centre", min(abs(c0[0] - float(c)) for c in cx), TOL_FFT, sub="axis=x:thr=%g" % t, detail={"got": c0[0]})
+        o.close("corr_array_centre", min(abs(c0[1] - float(c)) for c in cy), TOL_FFT, sub="axis=y:thr=%g" % t, detail={"got": c0[1]})
+        for sy, sx in ((0, 1), (1, 0), (-2, 3), (3, -1), (-4, -4), (y0 - ny + 3 + 1 if False else 2, 2)):
+            im = cog.embed(spot, (ny, nx), y0 + sy, x0 + sx)
+            c = _xy(C.correlation_centroid(im.copy(), ref.copy(), threshold=t, padding=pad)).reshape(-1)
+            o.close("corr_displacement", _err(c - c0, (sx, sy)), TOL_FFT, sub="thr=%g:shift=(%d,%d)" % (t, sx, sy))
+        o.stat("lib_calls", 7)
+    return o
+
 
 def _corr(p):
     C = _lib()
